@@ -235,7 +235,10 @@ unsafe fn dump_and_exit(ctx: &Ctx, sig: libc::c_int, hung_secs: u64) -> ! {
     put(buf, &mut pos, b"{\"property\":\"");
     let pl = PROPERTY.iter().position(|b| *b == 0).unwrap_or(0);
     put(buf, &mut pos, &PROPERTY[..pl]);
-    if sig == 0 {
+    if sig < 0 {
+      put(buf, &mut pos, b"\",\"signature\":\"panic:uncaught");
+      put(buf, &mut pos, b"\",\"message\":\"the subject panicked while running this case");
+    } else if sig == 0 {
       put(buf, &mut pos, b"\",\"signature\":\"hang:no-return");
       put(buf, &mut pos, b"\",\"message\":\"the subject did not return from this case within ");
       put_num(buf, &mut pos, hung_secs);
@@ -268,6 +271,19 @@ unsafe fn dump_and_exit(ctx: &Ctx, sig: libc::c_int, hung_secs: u64) -> ! {
   }
 }
 
+/// An uncaught panic has unwound to the top of the check process.  If some worker was inside a published
+/// case, that case is written out like a crash (signature `panic:uncaught`) and the process leaves with
+/// CRASH_EXIT so that the parent confirms it by replay; otherwise returns (machinery failure).
+pub fn uncaught_panic() {
+  let regs: Vec<usize> = REGISTRY.lock().map(|r| r.clone()).unwrap_or_default();
+  for p in regs {
+    let c = unsafe { &*(p as *const Ctx) };
+    if c.active.load(Ordering::Relaxed) {
+      unsafe { dump_and_exit(c, -1, 0) };
+    }
+  }
+}
+
 /// `value` serialised as a JSON object, closing brace removed (for `set_case`).
 pub fn head_of(v: &serde_json::Value) -> String {
   let mut s = serde_json::to_string(v).unwrap();
@@ -287,7 +303,7 @@ pub fn confirm_replay(bin: &std::path::Path, artefact: &std::path::Path, secs: u
   let t0 = std::time::Instant::now();
   loop {
     match ch.try_wait() {
-      Ok(Some(st)) => return st.signal().is_some() || st.code() == Some(CRASH_EXIT) || st.code() == Some(1),
+      Ok(Some(st)) => return st.signal().is_some() || st.code() == Some(CRASH_EXIT) || st.code() == Some(1) || st.code() == Some(101),
       Ok(None) => {
         if t0.elapsed().as_secs() >= secs {
           let _ = ch.kill();
